@@ -61,8 +61,14 @@ def run_one(mod, case):
     """Run one case under the watchdog; returns a record dict."""
     signal.signal(signal.SIGALRM, _alarm)
     signal.setitimer(signal.ITIMER_REAL, CASE_WATCHDOG_S)
+    from . import gen as _gen
+    d0 = dict(_gen.DECOY_STATS)
     try:
         rec = mod.run_case(case)
+        if isinstance(rec, dict) and isinstance(rec.get('cov'), dict):
+            for k_ in ('built', 'failed'):
+                if _gen.DECOY_STATS[k_] > d0[k_]:
+                    rec['cov']['sibling_grid_warmups_' + k_] = _gen.DECOY_STATS[k_] - d0[k_]
     except CaseTimeout:
         rec = {'verdict': 'inconclusive', 'key': 'watchdog', 'nontrivial': False,
                'msg': 'per-case watchdog fired'}
